@@ -597,6 +597,18 @@ class NAHooks(Hooks):
             def dot(a, b, *r, **k):
                 a, b = na_of(a), na_of(b)
                 aa, bb = a.a, b.a
+                out = k.pop('out', None)
+                if out is not None:
+                    res = dot(a, b, *r, **k)
+                    # NumPy: `out` must have the exact shape and dtype and
+                    # be C-contiguous
+                    if not isinstance(out, NA) or not isinstance(res, NA) \
+                            or out.a.shape != res.a.shape or \
+                            out.dt != res.dt or \
+                            not out.a.flags.c_contiguous:
+                        raise PyRaise('ValueError')
+                    out.a[...] = res.a
+                    return out
                 if name == 'vdot':
                     aa = _np.frompyfunc(H.atom1('conj'), 1, 1)(aa.ravel())
                     bb = bb.ravel()
@@ -916,8 +928,8 @@ class NAHooks(Hooks):
             return Builtin(name, lambda: self.elementwise(
                 I, self.atom1('conj'), obj, dt=obj.dt))
         if name == 'dot':
-            return Builtin('dot', lambda o: Builtin(
-                'np.dot', self.np_func(I, 'dot')).fn(obj, o))
+            return Builtin('dot', lambda o, out=None: Builtin(
+                'np.dot', self.np_func(I, 'dot')).fn(obj, o, out=out))
         if name == 'setflags':
             def sf(write=None, **k):
                 if write is not None:
